@@ -362,6 +362,10 @@ func run(id string, cfg propCfg, tier string) int {
 	}
 	evb, _ := json.MarshalIndent(ev, "", " ")
 	evPath := filepath.Join(verifRoot, "evidence", id+".json")
+	if d := os.Getenv("VERIF_EVIDENCE_DIR"); d != "" {
+		// trial runs against seeded changes must not overwrite the evidence of record
+		evPath = filepath.Join(d, id+".json")
+	}
 	_ = os.MkdirAll(filepath.Dir(evPath), 0o755)
 	if err := os.WriteFile(evPath, append(evb, '\n'), 0o644); err != nil {
 		fmt.Fprintln(os.Stderr, "vcheck: writing evidence:", err)
